@@ -1,4 +1,5 @@
 import BlochVerif.Sim.Qasm
+import BlochVerif.Sim.Replay
 /-!
 # C05 — the emitted OpenQASM lists what was done, once, in order, and is well formed
 
@@ -6,9 +7,12 @@ About the simulator model (any scalar instance): every operation the simulator p
 its own line to the log, a refused operation and an allocation append nothing, so after any history the
 log is the list of performed operations in execution order (`log_is_history`); every logged operand is in
 range of the final register and `cx` operands are distinct (`log_wellformed`).  The replay clause (an
-independent OpenQASM interpreter reaches the simulator's final state) needs "interleaved allocation equals
-allocation up front" and six-decimal angles; it is decided by the independent interpreter in
-`tools/qasmlib.py` on generated programs, not by a theorem (PARTIAL).
+independent OpenQASM interpreter reaches the simulator's final state): over exact complex amplitudes, declaring
+the whole register first and then performing the logged operations with the same draws reaches exactly the state
+of the interleaved run (`replay_reaches_the_same_state`, from `Sim/Replay.lean`: allocation commutes with every
+performed operation).  What remains outside the theorem is the text level of the replay — six-decimal angles and
+the parsing of the text — which the independent interpreter in `tools/qasmlib.py` decides on generated programs
+(PARTIAL).
 -/
 namespace BlochVerif.Props.C05
 open BlochVerif BlochVerif.Sim
@@ -146,5 +150,20 @@ theorem qasm_text_is_header_plus_history (o : ROps K R) (fmt : R → String) (h 
   unfold getQasm
   rw [log_is_history o h (State.init o true) rfl]
   simp [State.init]
+
+end BlochVerif.Props.C05
+
+/-! ## the replay clause -/
+namespace BlochVerif.Props.C05
+open BlochVerif.Sim
+
+/-- Replaying the performed operations on a register declared up front (`qreg q[n]` with `n` the number of
+allocations) with the same draws reaches the very state the simulation ended in — amplitudes, measured flags
+and operation log. -/
+theorem replay_reaches_the_same_state (h : List (HOp ℝ)) (hd : ∀ op ∈ h, DrawOK op)
+    (hp : AllPerformed (State.init complexOps true) h) :
+    runOps complexOps (State.init complexOps true) h =
+      runOps complexOps (allocN (nAllocs h) (State.init complexOps true)) (opsOnly h) :=
+  interleaved_allocation_equals_upfront h _ (WF_init' true) hd hp
 
 end BlochVerif.Props.C05
